@@ -105,6 +105,14 @@ def run(ctx):
     # the sorted order must be the one iterated: the for-loop consumes a collection derived from the sorted vec
     r.assumptions.append('Subscription::tick/publish order within one tick equals the iteration order of the sorted id list')
     priority_wiring(ctx)
+    order_preserved(ctx)
+
+
+def order_preserved(ctx):
+    """the priority order exists where the (subscription, request, notification) pairs are queued; it reaches the wire only if the
+    queues between there and the socket hand entries on oldest-first"""
+    from .C21 import fifo_ends
+    fifo_ends(ctx, ('transmission_queue', 'publish_response_queue'), rule='order-preserved')
 
 
 def priority_wiring(ctx, rule='priority-wiring'):
